@@ -7,4 +7,4 @@ cd "$(dirname "$0")/.."
 cd lean
 lake build PysparklingVerif driver \
   PysparklingVerif.Extracted.EquivC07 PysparklingVerif.Extracted.EquivC14 \
-  PysparklingVerif.Extracted.EquivC17 PysparklingVerif.Extracted.EquivC18
+  PysparklingVerif.Extracted.EquivC16 PysparklingVerif.Extracted.EquivC17 PysparklingVerif.Extracted.EquivC18
